@@ -333,6 +333,11 @@ def t_sparse_index():
     if not exps:
         raise Unsupported('no sparsity thresholds found')
     out += "\nFrom Coq Require Import List.\nDefinition prune_threshold_exponents : list Z := " + '(' + ' :: '.join(zlit(k) for k in exps) + ' :: nil)' + ".\n"
+    # the second entry point of "conversion to a T x T matrix": make_matrix (used by JacobianDict.pack and the dense fallbacks) must hand every non-array operand to its own .matrix(T)
+    mm = find_def('classes/sparse_jacobians.py', 'make_matrix')
+    body = [ast.unparse(b) for b in mm.body if not (isinstance(b, ast.Expr) and isinstance(b.value, ast.Constant))]
+    ok = body == ['if not isinstance(A, np.ndarray):\n    return A.matrix(T)\nelse:\n    return A']
+    out += f"Definition make_matrix_delegates_to_matrix : bool := {'true' if ok else 'false'}.\n"
     return out
 
 
